@@ -75,6 +75,9 @@ package ecs
 //@         p.reserved <= h.id && uint64(h.id) < uint64(len(p.entities)) && h.gen <= p.entities[h.id].gen
 //@         && (h.gen == p.entities[h.id].gen ==> epRank(p)[uint32(h.id)] == 0)))
 
+// the raw pointer Alive reads through addresses the first element of the entity slice
+//@ pred poolPtrOK(p *entityPool) := len(p.entities) > 0 && __same(p.pointer, unsafe.Pointer(&p.entities[0]))
+
 //@ func (*entityPool).Get
 //@   serves C02 C17
 //@   requires poolInv(p) && uint64(len(p.entities)) < 1<<32
@@ -88,6 +91,7 @@ package ecs
 //@   ensures  others: forall h Entity :: h.id != result.id ==> alive(p, h) == old(alive(p, h))
 //@   ensures  issued: forall h Entity :: epIssued(p)[h] == (old(epIssued(p)[h]) || h == result)
 //@   ensures  count: *epAlive(p) == old(*epAlive(p)) + 1
+//@   ensures  ptr: old(poolPtrOK(p)) ==> poolPtrOK(p)
 
 //@ func (*entityPool).Recycle
 //@   serves C02 C04 C16 C17
